@@ -3,9 +3,9 @@
 // differentially: for all (finite) arguments the C function returns exactly
 // what the C++ member returns, objects are built at the caller's address.
 #include "vf_harness.h"
-#include "/repo/bindings/c/conv.cpp"
-#include "/repo/bindings/c/box.cpp"
-#include "/repo/bindings/c/rect.cpp"
+#include "conv.cpp"
+#include "box.cpp"
+#include "rect.cpp"
 using namespace manifold;
 #ifndef VF_FB
 #define VF_FB 1e150
@@ -121,6 +121,21 @@ extern "C" void h_rect_arith() {
     Rect cs = ca * vec2(x, y);
     SAME2(manifold_rect_min(S), cs.min); SAME2(manifold_rect_max(S), cs.max);
   }
+  VF_END();
+}
+// the 6 matrix scalars of manifold_rect_transform arrive column by column
+extern "C" void h_rect_transform() {
+  alignas(Rect) unsigned char m1[sizeof(Rect)], m3[sizeof(Rect)];
+  double a[4], t[6];
+  for (int i = 0; i < 4; i++) a[i] = vf_range(-8, 8);
+  for (int i = 0; i < 6; i++) t[i] = vf_range(-8, 8);
+  ManifoldRect* A = manifold_rect(m1, a[0], a[1], a[2], a[3]);
+  ManifoldRect* T = manifold_rect_transform(m3, A, t[0], t[1], t[2], t[3], t[4], t[5]);
+  const Rect ca(vec2(a[0], a[1]), vec2(a[2], a[3]));
+  mat2x3 M({t[0], t[1]}, {t[2], t[3]}, {t[4], t[5]});
+  Rect ct = ca.Transform(M);
+  VF_ASSERT((void*)T == (void*)m3);
+  SAME2(manifold_rect_min(T), ct.min); SAME2(manifold_rect_max(T), ct.max);
   VF_END();
 }
 extern "C" void h_rect() {
